@@ -227,6 +227,8 @@ def scenarios(pid, tier, seed):
             {"args": ["scen", "family=perfts", "depth=%d" % (2 if q else 3), "walkpos=%d" % (16 if q else 200), S], "shards": 16},
             # depth 4 is where two move orders under one root first reach one placement with and without a live en-passant capture
             {"args": ["scen", "family=perfts", "depth=4", "maxpieces=%d" % (5 if q else 7), "walkpos=%d" % (0 if q else 60), S], "shards": 16},
+            # depths 5 (and 6): where one root move's subtree first meets a position again with less depth remaining
+            {"args": ["scen", "family=perfts", "depth=%d" % (5 if q else 6), "names=bare-kings,pawn-ending-ep,underpromo-mate,ep-gives-check,ep-evades-check", "walkpos=0", S], "shards": 16},
         ]
     if pid == "C14":
         return [
